@@ -26,6 +26,11 @@ PctRawClamped(pct) == IF Le(pct, I(0)) THEN I(0) ELSE IF Le(I(100), pct) THEN I(
 \* x (an integer) is what may be transmitted for the exact 16-bit quantity q
 Sent16(x, q) == /\ x \in 0..MaxRaw
                 /\ NearInt(x, Clamp(q, 0, MaxRaw))
+\* the same for a hue: raw 0 and raw 65535 are the same angle, so an exact value at either end of the
+\* scale may be transmitted as either
+SentHue(x, q) == \/ Sent16(x, q)
+                 \/ x = MaxRaw /\ Sent16(0, q)
+                 \/ x = 0 /\ Sent16(MaxRaw, q)
 
 \* RGB (each a fraction 0..1 of full scale, as rationals) -> HSV fractions, the textbook definition
 Max3(a, b, c) == LET m == IF Lt(a, b) THEN b ELSE a IN IF Lt(m, c) THEN c ELSE m
@@ -62,7 +67,7 @@ SentColour(sent, mode, c) ==
     THEN /\ \A k \in 1..3 : sent[k] \in 0..MaxRaw
          /\ Sent16(sent[4], c[4])
     ELSE LET raw == RawColour(mode, c)
-         IN  \A k \in 1..4 : Sent16(sent[k], raw[k])
+         IN  SentHue(sent[1], raw[1]) /\ \A k \in 2..4 : Sent16(sent[k], raw[k])
 
 (***************************************************************************)
 (* Durations: 0 .. 2^32-1 ms does not fit TLC's integers, so a transmitted *)
